@@ -2543,10 +2543,35 @@ pub fn gen_case(rng: &mut Rng, tier: &str, profile: &str, stats: &mut Stats) -> 
         gen_c16(rng, &mut ops, stats);
         return ops;
     }
+    if profile == "C09" && rng.chance(1, 2) {
+        // lookups whose peers mostly fail or stay silent: the caller still gets a result (possibly empty)
+        stats.bump("gen.c09.service-failing-peers");
+        let a = rng.range(1, 40);
+        ops.push(format!("snew A k{} 1 4 0 ip4 all 16 16 0", a));
+        let npeers = rng.range(1, 5);
+        for i in 0..npeers {
+            ops.push(format!("sest A k{}:1:4:0 = {}", 300 + i * 7 + rng.below(5), if rng.chance(1, 2) { "o" } else { "i" }));
+        }
+        for _ in 0..rng.range(1, 3) {
+            let tid: Vec<u8> = rng.bytes(32);
+            ops.push(format!("squery A {}", hex::encode(tid)));
+            let all_fail = rng.chance(2, 3);
+            for _ in 0..(npeers * 2 + 4) {
+                if all_fail || rng.chance(2, 3) {
+                    ops.push("sfail A #q".into());
+                } else {
+                    ops.push(format!("sresp A #q ok nodes 1 {}", if rng.chance(1, 2) { "-".to_string() } else { format!("@in:{}", rng.below(1000)) }));
+                }
+            }
+        }
+        ops.push("stable A".into());
+        return ops;
+    }
     let p = match profile {
         "C11" | "C12" | "C14" | "C17" => profile,
-        // C09 / C10 (service half): lookups driven through the real service
-        "C09" | "C10" => "C11",
+        // C10 (service half): lookups driven through the real service
+        "C10" => "C11",
+        "C09" if rng.chance(1, 2) => "C11",
         // C01 (service half): routing-table effects of handler reports -> the table-policy scenarios
         "C01" => "C12",
         _ => *rng.pick(&["C11", "C12", "C14", "C17"]),
